@@ -300,15 +300,29 @@ func (w *workerProc) run(j *Job) (*Result, error) {
 	if _, err := w.in.Write(b); err != nil {
 		return nil, err
 	}
-	line, err := w.out.ReadBytes('\n')
-	if err != nil {
-		return nil, fmt.Errorf("worker died: %v", err)
+	type res struct {
+		line []byte
+		err  error
 	}
-	var r Result
-	if err := json.Unmarshal(line, &r); err != nil {
-		return nil, fmt.Errorf("bad result: %v", err)
+	ch := make(chan res, 1)
+	go func() {
+		line, err := w.out.ReadBytes('\n')
+		ch <- res{line, err}
+	}()
+	limit := time.Duration(j.DeadlineS+120) * time.Second
+	select {
+	case x := <-ch:
+		if x.err != nil {
+			return nil, fmt.Errorf("worker died: %v", x.err)
+		}
+		var r Result
+		if err := json.Unmarshal(x.line, &r); err != nil {
+			return nil, fmt.Errorf("bad result: %v", err)
+		}
+		return &r, nil
+	case <-time.After(limit):
+		return nil, fmt.Errorf("worker did not answer within %v (job deadline %vs): killed", limit, j.DeadlineS)
 	}
-	return &r, nil
 }
 
 func unitKey(u *Unit) string {
